@@ -18,8 +18,8 @@ from concurrent.futures import ThreadPoolExecutor
 VERIF = os.path.dirname(os.path.dirname(os.path.abspath(__file__)))
 
 
-def _one(prop, root, seed):
-    sd = os.path.join(VERIF, "seeded", seed)
+def _one(prop, root, seed, base="seeded"):
+    sd = os.path.join(VERIF, base, seed)
     title = ""
     try:
         with open(os.path.join(sd, "meta.json")) as f:
@@ -66,3 +66,17 @@ def replay_witnesses(prop, root):
         return []
     with ThreadPoolExecutor(min(16, len(seeds))) as ex:
         return list(ex.map(lambda s: _one(prop, root, s), seeds))
+
+
+def replay_controls(prop, root):
+    """negative controls: behaviour-preserving refactorings (benign/) re-applied to a scratch copy of
+    the current tree; the check must stay silent (no violation, no analysis error) on each."""
+    path = os.path.join(VERIF, "benign", "CONTROLS.json")
+    if not os.path.exists(path):
+        return []
+    with open(path) as f:
+        ids = json.load(f).get(prop, [])
+    if not ids:
+        return []
+    with ThreadPoolExecutor(min(16, len(ids))) as ex:
+        return list(ex.map(lambda s: _one(prop, root, s, "benign"), ids))
